@@ -29,3 +29,6 @@ def run(ctx, test="^TestVerifC05$", name="C05", files=None):
         # of C11 (every admitted session is probed with a request which must be answered) are replayed here as well
         import props.C11 as c11
         c11.run(ctx, name="C05-registry")
+        # a frame which cannot be decoded must not stop the requests behind it from being answered (real sockets, child processes)
+        import props.C09 as c09
+        c09.run(ctx, test="^TestVerifC05Frames$", name="C05-frames")
